@@ -17,7 +17,9 @@ EXTENDS Integers, Sequences, FiniteSets, TLC, Json
 CONSTANTS M,           \* <<Mx, My, Mz>>
           Ghosts,      \* set of ghost widths <<gx, gy, gz>> (Carpet allows a different width on every axis)
           CutOptions,  \* CutOptions[n] = set of allowed cut sets for an axis of n points (each a subset of 1..n-1)
-          Family,      \* "tensor" | "slab" | "nested"
+          Family,      \* "tensor" | "slab" | "nested" | "xouter" (nested the other way round: x-slabs outermost, each with its
+                       \* own y-cuts, each strip with its own z-cuts - outside the family Carpet produces and the reader joins:
+                       \* reference semantics "raise, or return exactly the interior grid")
           Orders,      \* set of enumeration orders: "xfast", "zfast", "reversed", "rotated"
           Emit
 
@@ -34,13 +36,17 @@ Intervals(n, cuts) == LET s == <<0>> \o SortSet(cuts) \o <<n>>
 NSlabs        == Cardinality(zc) + 1
 NStrips(s)    == Cardinality(yc[s]) + 1
 NPieces(s, t) == Cardinality(xc[<<s, t>>]) + 1
-ZInt(s)       == Intervals(M[3], zc)[s]
+(* the outermost level cuts axis Outer, the innermost axis Inner (z and x, exchanged for the family "xouter") *)
+Outer == IF Family = "xouter" THEN 1 ELSE 3
+Inner == IF Family = "xouter" THEN 3 ELSE 1
+ZInt(s)       == Intervals(M[Outer], zc)[s]
 YInt(s, t)    == Intervals(M[2], yc[s])[t]
-XInt(s, t, u) == Intervals(M[1], xc[<<s, t>>])[u]
+XInt(s, t, u) == Intervals(M[Inner], xc[<<s, t>>])[u]
 
 ChunkIds == UNION {{<<k[1], k[2], u>> : u \in 1 .. NPieces(k[1], k[2])} :
                        k \in UNION {{<<s, t>> : t \in 1 .. NStrips(s)} : s \in 1 .. NSlabs}}
-Own(c) == [x |-> XInt(c[1], c[2], c[3]), y |-> YInt(c[1], c[2]), z |-> ZInt(c[1])]
+Own(c) == IF Family = "xouter" THEN [x |-> ZInt(c[1]), y |-> YInt(c[1], c[2]), z |-> XInt(c[1], c[2], c[3])]
+          ELSE [x |-> XInt(c[1], c[2], c[3]), y |-> YInt(c[1], c[2]), z |-> ZInt(c[1])]
 
 (* chunk numbering *)
 Key(c) == LET o == Own(c) IN
@@ -60,7 +66,7 @@ NextStrip == CHOOSE k \in {<<s, t>> : s \in 1 .. Len(yc), t \in 1 .. M[2]} :
                 /\ \A j \in {<<s, t>> : s \in 1 .. Len(yc), t \in 1 .. M[2]} :
                       (j[2] <= Cardinality(yc[j[1]]) + 1 /\ j \notin DOMAIN xc) => (k[1] < j[1] \/ (k[1] = j[1] /\ k[2] <= j[2]))
 Init == /\ ghost \in Ghosts /\ order \in Orders
-        /\ zc \in CutOptions[M[3]] /\ yc = << >> /\ xc = << >>
+        /\ zc \in CutOptions[M[Outer]] /\ yc = << >> /\ xc = << >>
 ChooseY == /\ Len(yc) < Cardinality(zc) + 1
            /\ \E c \in CutOptions[M[2]] :
                  /\ (Family = "tensor" /\ yc # << >>) => c = yc[1]
@@ -68,7 +74,7 @@ ChooseY == /\ Len(yc) < Cardinality(zc) + 1
            /\ UNCHANGED <<zc, xc, ghost, order>>
 ChooseX == /\ Len(yc) = Cardinality(zc) + 1 /\ ~Complete
            /\ LET k == NextStrip IN
-              \E c \in CutOptions[M[1]] :
+              \E c \in CutOptions[M[Inner]] :
                  /\ (Family = "tensor" /\ DOMAIN xc # {}) => c = xc[<<1, 1>>]
                  /\ (Family = "slab" /\ <<k[1], 1>> \in DOMAIN xc) => c = xc[<<k[1], 1>>]
                  /\ xc' = [j \in (DOMAIN xc) \cup {k} |-> IF j = k THEN c ELSE xc[j]]
